@@ -647,6 +647,31 @@ def native(tier, seed, bdir, only=None):
     out = []
     if not only or fnmatch.fnmatch("native.is_prime", only):
         out += c10.primes_native(bdir)
+    uid = "native.ripser_vs_rips"
+    if not only or fnmatch.fnmatch(uid, only):
+        import json
+        os.makedirs(bdir, exist_ok=True)
+        exe = os.path.join(bdir, "ripser_sweep")
+        inc = ["-I/repo/src/Ripser/include", "-I/repo/src/common/include", "-I/repo/src/Rips_complex/include", "-I/repo/src/Simplex_tree/include", "-I/repo/src/Persistent_cohomology/include"]
+        rc, o, e, s = sh(["g++", "-std=c++17", "-O1", "-w", "-DNDEBUG"] + inc + [os.path.join(VERIF, "native", "ripser_sweep.cpp"), "-o", exe, "-ltbb"], 1200, mem_kb=16 * 1024 * 1024)
+        if rc != 0:
+            out.append({"unit": uid, "status": "error", "notes": (o + e)[-1500:], "cases": 0, "failures": []})
+        else:
+            rc, o, e, secs = sh([exe, str(seed), "1" if tier == "thorough" else "0", "0", "1"], 3600)
+            rec = {"unit": uid, "route": "B", "kind": "native (exhaustive on 4 points over {1,2,3}, sampled on 5-6 points)", "status": "ok", "cases": 0, "failures": [], "seconds": round(secs, 2),
+                   "bound": "every symmetric dissimilarity on <= 4 points with entries in {1,2,3}; sampled ones on 5 and 6 points; 4 Euclidean clouds; thresholds none / each distance / half the smallest; dim_max 0..n-2; moduli 2, 3; forms full, lower, upper, sparse, Euclidean",
+                   "desc": "the headline clause of C11, which no contract reaches: intervals streamed by ripser_auto (zero-length dropped) == barcode of the Rips flag filtration through Rips_complex + Simplex_tree + Persistent_cohomology"}
+            try:
+                js = json.loads(o.strip().split("\n")[-1])
+                rec["cases"] = rec["obligations"] = js["checked"]
+                for m in js["first"]:
+                    m["id"] = f"case{len(rec['failures'])}"
+                    m["input_class"] = None
+                    rec["failures"].append(m)
+            except (ValueError, IndexError):
+                rec["status"] = "error"
+                rec["notes"] = f"native run failed rc={rc}: {(o + e)[-600:]}"
+            out.append(rec)
     for tag, defs in (("fake_uint128", ["-DGUDHI_FORCE_FAKE_UINT128"]), ("native_int128", [])):
         uid = f"native.coeff_packing.{tag}"
         if only and not fnmatch.fnmatch(uid, only):
@@ -700,7 +725,7 @@ TRUSTED = [
     "Fake_uint128 is extracted as a C struct {high, low}; the native unsigned __int128 of the C front end is the specification (the class's own GUDHI_VERIF)",
 ]
 ASSUMPTIONS = [
-    "NOT decided: that the streamed intervals equal the Rips barcode (apparent/emergent pairs, clearing, heap columns, hash maps, Union_find, coboundary enumerators, the enclosing-radius logic of ripser_auto) - only the encoding / arithmetic interface is under contract",
+    "NOT decided by contracts: that the streamed intervals equal the Rips barcode (apparent/emergent pairs, clearing, heap columns, hash maps: not extractable) - only the encoding / arithmetic interface and the listed leaves are under contract; the headline clause is covered only by the bounded native stand-in native.ripser_vs_rips, never counted as proved",
     "Cns_encoding's binomial table and its get_max_vertex wrapper (the binary search get_max is under contract), Full_distance_matrix, Compressed_distance_matrix<UPPER_TRIANGULAR> (forms a pointer before its array: CBMC cannot follow it) and the sparse coboundary enumerator are not under contract",
     "simplices with at most 5 vertices in the Bitfield round-trip units (unwinding bound)",
 ]
